@@ -25,66 +25,72 @@ Qed.
 Lemma has_drain_app a b : has_drain (a ++ b) = orb (has_drain a) (has_drain b).
 Proof. unfold has_drain. apply existsb_app. Qed.
 
-(* invariant: the trace is fine; a released, not yet stopped main goroutine will drain (graceful action) or somebody has *)
+Definition good : sflags := mkSF true true.
+
+(* invariant: the trace is fine; a released main goroutine was released by a noticed stop (whose action stays graceful) or by
+   the upgrade handler, which has drained *)
 Definition g_inv (g : stg) : Prop :=
   drained_before_close (g_trace g) = true /\
-  (g_released g = true -> g_stopped g = false -> graceful (g_action g) = true \/ has_drain (g_trace g) = true) /\
+  (g_released g = true -> g_stopped g = false -> g_noticed g = true \/ has_drain (g_trace g) = true) /\
+  (g_noticed g = true -> graceful (g_action g) = true) /\
   (4 <= g_hpc g -> has_drain (g_trace g) = true).
 
 Lemma g_inv_init : g_inv g_init.
 Proof. repeat split; cbn; intros; try discriminate; lia. Qed.
 
 Lemma g_inv_step g e :
-  (match e with EvInt => False | EvHup => g_released g = true -> g_stopped g = true | _ => True end) ->
-  g_inv g -> g_inv (g_step true g e).
+  (match e with EvInt => False | _ => True end) -> g_inv g -> g_inv (g_step good g e).
 Proof.
-  intros He (Ht & Hr & Hh). destruct g as [st ac rel hpc stp tr]. unfold g_inv, g_step, drained_before_close in *.
-  cbn [g_trace g_released g_action g_stopped g_hpc g_state] in *.
+  intros He (Ht & Hr & Hn & Hh). destruct g as [st ac rel hpc stp tr nt]. unfold g_inv, g_step, drained_before_close in *.
+  cbn [g_trace g_released g_action g_stopped g_hpc g_state g_noticed good always hupsafe] in *.
   destruct stp; [repeat split; assumption|].
-  destruct e; try contradiction; cbn [g_trace g_released g_action g_stopped g_hpc g_state].
-  - (* SIGTERM *) split; [exact Ht|]. split; [intros _ _; left; reflexivity|exact Hh].
-  - (* SIGHUP: only while the main goroutine is not released *)
-    split; [exact Ht|]. split; [|exact Hh]. intros Hrel _. specialize (He Hrel). discriminate.
+  destruct e; try contradiction; cbn [g_trace g_released g_action g_stopped g_hpc g_state g_noticed].
+  - (* SIGTERM *) split; [exact Ht|]. split; [intros _ _; left; reflexivity|]. split; [intros _; reflexivity|exact Hh].
+  - (* SIGHUP: ignored once a stop has been noticed *)
+    cbn [andb]. destruct nt; cbn [g_trace g_released g_action g_stopped g_hpc g_state g_noticed].
+    + split; [exact Ht|]. split; [exact Hr|]. split; [exact Hn|exact Hh].
+    + split; [exact Ht|]. split; [exact Hr|]. split; [intros H; discriminate|exact Hh].
   - (* the new server dialled *)
-    destruct (Nat.eqb hpc 0) eqn:E0; cbn [g_trace g_released g_action g_stopped g_hpc g_state]; split; try exact Ht; split; try exact Hh; try exact Hr.
-    + intros _ _. left. reflexivity.
-    + intros H. lia.
+    destruct (Nat.eqb hpc 0) eqn:E0; cbn [g_trace g_released g_action g_stopped g_hpc g_state g_noticed].
+    + split; [exact Ht|]. split; [exact Hr|]. split; [intros _; reflexivity|intros H; lia].
+    + split; [exact Ht|]. split; [exact Hr|]. split; [exact Hn|exact Hh].
   - (* handler progress *)
-    destruct hpc as [|[|[|[|[|n]]]]]; cbn [g_trace g_released g_action g_stopped g_hpc g_state].
-    + split; [exact Ht|]. split; [exact Hr|exact Hh].
-    + split; [exact Ht|]. split; [exact Hr|intros H; lia].
-    + split; [exact Ht|]. split; [exact Hr|intros H; lia].
+    destruct hpc as [|[|[|[|[|n]]]]]; cbn [g_trace g_released g_action g_stopped g_hpc g_state g_noticed].
+    + split; [exact Ht|]. split; [exact Hr|]. split; [exact Hn|exact Hh].
+    + split; [exact Ht|]. split; [exact Hr|]. split; [exact Hn|intros H; lia].
+    + split; [exact Ht|]. split; [exact Hr|]. split; [exact Hn|intros H; lia].
     + split; [apply dbc_app; [exact Ht|reflexivity|right; reflexivity]|].
-      split; [intros _ _; right|intros _]; rewrite has_drain_app; cbn; apply orb_true_r.
-    + split; [exact Ht|]. split; [intros _ _; right; apply Hh; lia|intros _; apply Hh; lia].
-    + split; [exact Ht|]. split; [exact Hr|exact Hh].
+      split; [intros _ _; right; rewrite has_drain_app; cbn; apply orb_true_r|].
+      split; [exact Hn|intros _; rewrite has_drain_app; cbn; apply orb_true_r].
+    + split; [exact Ht|]. split; [intros _ _; right; apply Hh; lia|]. split; [exact Hn|intros _; apply Hh; lia].
+    + split; [exact Ht|]. split; [exact Hr|]. split; [exact Hn|exact Hh].
   - (* handler failure *)
-    destruct hpc as [|[|[|[|n]]]]; cbn [g_trace g_released g_action g_stopped g_hpc g_state];
-      split; try exact Ht; split; try exact Hr; try exact Hh; intros H; lia.
+    destruct hpc as [|[|[|[|n]]]]; cbn [g_trace g_released g_action g_stopped g_hpc g_state g_noticed];
+      split; try exact Ht; split; try exact Hr; split; try exact Hn; try exact Hh; intros H; lia.
   - (* the main goroutine stops *)
-    destruct rel; cbn [g_trace g_released g_action g_stopped g_hpc g_state]; [|split; [exact Ht|]; split; [exact Hr|exact Hh]].
+    destruct rel; cbn [g_trace g_released g_action g_stopped g_hpc g_state g_noticed]; [|split; [exact Ht|]; split; [exact Hr|]; split; [exact Hn|exact Hh]].
     cbn [orb andb]. rewrite andb_true_r.
-    split; [|split].
-    + destruct (Hr eq_refl eq_refl) as [Hg|Hd].
-      * rewrite Hg. apply dbc_app; [exact Ht|reflexivity|right; reflexivity].
+    split; [|split; [|split]].
+    + destruct (Hr eq_refl eq_refl) as [Hnt|Hd].
+      * rewrite (Hn Hnt). apply dbc_app; [exact Ht|reflexivity|right; reflexivity].
       * destruct (graceful ac).
         -- apply dbc_app; [exact Ht|reflexivity|right; reflexivity].
         -- cbn [app]. apply dbc_app; [exact Ht|reflexivity|left; cbn; exact Hd].
     + intros _ H; discriminate.
+    + exact Hn.
     + intros H. rewrite has_drain_app. rewrite (Hh H). reflexivity.
 Qed.
 
-Lemma g_inv_run evs : forall g, g_inv g -> admissible_from true g evs = true -> g_inv (fold_left (g_step true) evs g).
+Lemma g_inv_run evs : forall g, g_inv g -> admissible evs = true -> g_inv (fold_left (g_step good) evs g).
 Proof.
   induction evs as [|e evs IH]; intros g Hi Ha; cbn [fold_left]; [exact Hi|].
-  cbn [admissible_from] in Ha. apply andb_true_iff in Ha as [He Ha].
-  apply IH; [|exact Ha]. apply g_inv_step; [|exact Hi].
-  destruct e; try exact I; try discriminate.
-  intros Hrel. rewrite Hrel in He. cbn in He. destruct (g_stopped g); [reflexivity|discriminate].
+  unfold admissible in Ha. cbn [forallb] in Ha. apply andb_true_iff in Ha as [He Ha].
+  apply IH; [|exact Ha]. apply g_inv_step; [|exact Hi]. destruct e; try exact I; discriminate.
 Qed.
 
-(* MAIN: for EVERY admissible interleaving of SIGTERM, SIGHUP, the new server's dial, the upgrade handler's progress and
-   failure, and the main goroutine's Stop(): Application.Close is never called before a drain has been performed by someone *)
+(* MAIN: for EVERY interleaving (without an immediate stop) of SIGTERM, SIGHUP, the new server's dial, the upgrade handler's
+   progress and failure, and the main goroutine's Stop(): Application.Close is never called before a drain has been
+   performed by someone *)
 Theorem close_never_before_drain evs :
-  admissible true evs = true -> drained_before_close (g_trace (g_run true evs)) = true.
+  admissible evs = true -> drained_before_close (g_trace (g_run good evs)) = true.
 Proof. intros Ha. exact (proj1 (g_inv_run evs g_init g_inv_init Ha)). Qed.
